@@ -18,7 +18,8 @@ from mc.core import Result
 ID = "C15"
 LEVEL = "exploration"
 RULE = (
-    "layer 1: every subset of the branch-name universe x every version of the version list through versions.best_match; "
+    "layer 1: every subset of the branch-name universe x every version of the version list through versions.best_match, plus every subset of a "
+    "second universe with majors of different digit counts (2, 9, 10, 11, 100) x 12 versions; "
     "layer 2: every (branch subset, tag subset, version) of a smaller universe on a real local git repository through "
     "RallyRepository.update; layer 3: every non-empty subset of remote branch names (incl. namespaced names such as "
     "users/jdoe/8.3) x versions on an origin + clone pair. A case is non-trivial when at least one versioned branch of the version's major is present; "
@@ -35,6 +36,10 @@ UNIVERSE_Q = ["master", "5", "6", "7", "7.0", "7.2", "7.11", "7.3.0", "7.3.1", "
 UNIVERSE_T = UNIVERSE_Q + ["6.8", "7.10", "8.0.0", "9"]
 VERSIONS_Q = ["6.8.0", "7.0.0", "7.0.1", "7.1.0", "7.3.1", "7.3.1-beta1", "7.10.2", "7.12.1", "8.0.0", "8.1.0", "9.0.0", None, "serverless"]
 VERSIONS_T = VERSIONS_Q + ["5.6.16", "7.3.0", "7.3.2-beta1", "8.0.0-SNAPSHOT", "10.0.0", ""]
+
+# majors with different numbers of digits (numeric, not lexicographic order)
+UNIVERSE_2D = ["master", "2", "9", "9.1", "10", "10.2", "11", "11.0", "100.1"]
+VERSIONS_2D = ["1.0.0", "2.4.0", "9.0.0", "9.5.0", "10.0.0", "10.1.0", "10.3.0", "11.0.0", "12.0.0", "99.0.0", "100.0.0", "100.2.0"]
 
 VPAT = re.compile(r"^(\d+)(?:\.(\d+))?(?:\.(\d+))?(?:-(.+))?$")
 
@@ -395,8 +400,11 @@ def run(tier, seed):
     total = 1 << len(universe)
     step = max(1, total // (par.NPROC * 4))
     shards = [(universe, vers, lo, min(total, lo + step)) for lo in range(0, total, step)]
+    t2 = 1 << len(UNIVERSE_2D)
+    shards += [(UNIVERSE_2D, VERSIONS_2D, lo, min(t2, lo + 64)) for lo in range(0, t2, 64)]
     res = par.pmap(_layer1_shard, shards, seed=seed)
     res.extra["layer1_cases"] = res.evaluations
+    res.extra["universe_two_digit_majors"] = UNIVERSE_2D
     gc = _git_cases(tier)
     r2 = par.pmap(_layer2_shard, par.chunks(gc, par.NPROC), seed=seed)
     res.extra["layer2_git_cases"] = r2.evaluations
